@@ -1074,6 +1074,17 @@ def make_config(prop, tier, rng):
     allocs = []
     for i in range(rng.randint(2, 8 if big else 6)):
         allocs.append('%s/a%d' % (rng.choice(tenants), i))
+    if 't1:s1' in tenants and rng.random() < 0.6:
+        # a top-level tenant whose id is the tail of a nested one
+        tenants.append('s1')
+    if len(tenants) > 1 and rng.random() < 0.6:
+        # the same allocation name under several tenants
+        for name in rng.sample(allocs, rng.randint(1, min(3, len(allocs)))):
+            tenant, leaf = name.split('/')
+            twin = '%s/%s' % (rng.choice([t for t in tenants
+                                          if t != tenant]), leaf)
+            if twin not in allocs:
+                allocs.append(twin)
     tight = rng.random() < 0.6
     cfg = {
         'cells': cells,
